@@ -8,6 +8,7 @@ import (
 	"io"
 	"math"
 	"reflect"
+	"strings"
 
 	pk "github.com/Tnze/go-mc/net/packet"
 
@@ -187,6 +188,10 @@ func leaf(r *vm.Rand) node {
 		}}
 	case 9:
 		s := genString(r)
+		if r.Intn(400) == 0 {
+			s = strings.Repeat("s", []int{65535, 65536, 65537, 70000, 131073, 200000}[r.Intn(6)])
+			coverPrior("String.above-64KiB")
+		}
 		v := pk.String(s)
 		kind := "String"
 		if r.Bool() {
@@ -212,6 +217,11 @@ func leaf(r *vm.Rand) node {
 		return simple[pk.UUID]("UUID", v, v, append([]byte{}, v[:]...), func(r *vm.Rand) pk.UUID { return pk.UUID{1, 2, 3} })
 	case 15:
 		n := []int{0, 1, 2, 5, 127, 128, 300}[r.Intn(7)]
+		if r.Intn(400) == 0 {
+			// around the sizes at which a reader that grows its buffer step by step changes step
+			n = []int{65535, 65536, 65537, 70000, 100000, 131073, 200000}[r.Intn(7)]
+			coverPrior("ByteArray.above-64KiB")
+		}
 		data := r.Bytes(n)
 		v := pk.ByteArray(data)
 		ref := append(refwire.EncVarInt(int32(n)), data...)
